@@ -51,7 +51,7 @@ CLAIMED = {
 
  "C17": ("exploration", "Engine R", "owned randomness (module-local logging RandomState whose node-update permutation - the schedule - may be replaced by identity / reverse / rotation), simulated clock with jumps, stalls and backward steps, perturbed global PRNGs; same-seed identity across two differently faulted runs",
          "HypergraphMT.fit: shapes, finiteness, non-negativity, zero rows for isolated nodes, maxL = best final value of the training table, per-iteration ascent of the recorded log-likelihood (normalizeU=False), agreement of maxL with the likelihood from its definition over all C(N,d) subsets (min_value_par=0), identical (u, w, maxL, training table minus runtime) for the same seed under a different simulated clock and perturbed global PRNG state; HySC.fit: 0/1 matrix, one 1 per non-isolated row, none for isolated rows, same result for the same seed.",
-         "Three rare numerical defects of Hypergraph-MT are listed known findings (row normalisation, recorded log-likelihood decreasing, maxL vs definition; KNOWN_FINDINGS.txt): a change that only breaks one of these three clauses is masked by them.  Threads of scikit-learn/BLAS pinned to 1."),
+         "Four rare numerical defects of Hypergraph-MT are listed known findings (row normalisation, recorded log-likelihood decreasing, maxL vs definition, AssertionError from its own psi consistency check; KNOWN_FINDINGS.txt): a change that only breaks one of these clauses is masked unless it makes the finding far more frequent than documented (rate bounds).  Threads of scikit-learn/BLAS pinned to 1."),
 }
 NA = {
  "C08": "pure function of the hypergraph value (degrees, components): no history, I/O, random draw, clock or interleaving for a simulator to own (DESIGN.md 8)",
